@@ -153,7 +153,15 @@ def parse_segments(text, version=None, encoding_chars=None, validation_level=Non
             previous_position = (list(parents_refs), current_parent)
             for x in xrange(len(parents_refs)):
                 if not find_groups:
-                    segment = parse_segment(s.strip(), version, encoding_chars, validation_level)
+                    # the segment is described by the structure of the message (a message profile, possibly),
+                    # wherever it sits in it
+                    ref = None
+                    if references is not None:
+                        try:
+                            ref, _ = _get_segment_reference(segment_name, [(None, references)])
+                        except (TypeError, IndexError):
+                            ref = None
+                    segment = parse_segment(s.strip(), version, encoding_chars, validation_level, ref)
                     segments.append(segment)
                 else:
                     ref, parents_refs = _get_segment_reference(segment_name, parents_refs)
